@@ -253,6 +253,25 @@ PROPS["C05"] = dict(
     note="Trusted: SQLite atomic commit, the executor stand-ins of C03, solvers, pyvc.",
 )
 
+PROPS["C07"] = dict(
+    modules=["contracts.C06_clean", "contracts.C19_status", "contracts.C07_orphans", "contracts.C07_bounded"],
+    decided=["Trellis.delete_detached stops only after a pass in which the selecting query (detached, no product, no sink) "
+             "returned no row; every deleted node went through before_delete (C06)", "Workflow.delete_detached detaches a "
+             "static-tree file exactly when nothing consumes it, then runs the generic loop once",
+             "File.before_delete queues the file with its recorded hash and its parent directory (C06)",
+             "Step.before_delete / mark_dir_to_be_deleted queue the working directory, never the project root, and change "
+             "nothing else in the queue", "revert_optional_steps resets exactly the attached steps whose implied need is "
+             "OPTIONAL and queues their outputs (C06)", "remove_deletable_files removes only what the queue holds with an "
+             "unchanged hash (C06)"],
+    undecided=["that every history of plan edits leaves the orphan detached in the first place (bounded stand-in)",
+               "detached cycles of creator and dependency edges (documented fixed point of the loop)", "files on disk"],
+    assumptions=["relational reading of SQLite", "Path primitives"],
+    level="Completeness of the deletion loop at its fixed point and the contents of the removal queue are contracts on the "
+          "real functions (shared with C06); that plan edits actually detach what they drop is a bounded stand-in over all "
+          "short histories of plan edits and builds on the real code.",
+    note="Trusted: SQLite, file-system primitives, solvers, pyvc.",
+)
+
 NOT_BUILT = {}
 
 _loaded = False
